@@ -26,10 +26,12 @@ Open Scope Z_scope.
 Definition f64 := N.
 
 Definition sf_of_bits (x : N) : spec_float :=
-  let x := (x mod 18446744073709551616)%N in
-  let s := (9223372036854775808 <=? x)%N in
-  let e := Z.of_N ((x / 4503599627370496) mod 2048)%N in
-  let m := Z.of_N (x mod 4503599627370496)%N in
+  (* sign = bit 63, biased exponent = bits 62..52, fraction = bits 51..0 (masks and shifts, which
+     vm_compute evaluates in time linear in the bit length - the tie decodes millions of values) *)
+  let x := N.land x 18446744073709551615%N in
+  let s := N.testbit x 63 in
+  let e := Z.of_N (N.land (N.shiftr x 52) 2047) in
+  let m := Z.of_N (N.land x 4503599627370495) in
   if e =? 0 then
     match m with Zpos p => S754_finite s p (-1074) | _ => S754_zero s end
   else if e =? 2047 then
